@@ -2,13 +2,20 @@
 
 Proved (Lean): the reported look-ahead (closed form, all histories, exact in ms, = CELT overlap + delay buffer),
 the Princen-Bradley defect of the regenerated window (<= 2^-23), MDCT/IMDCT alias form and time-domain alias
-cancellation over the reals, TDAC with the real window table.
+cancellation over the reals for every frame size and input, TDAC with the real window table; channel identity of the
+multistream routing (the channel the encoder feeds a stream side from = the channel the decoder writes it to), for
+every layout and for every channel of the surround layouts.
 Tied (S3): OPUS_GET_LOOKAHEAD on real encoders (single / multistream / projection, all Fs x application x channels,
 also after OPUS_SET_APPLICATION) = model, exactly; clt_mdct_forward_c / clt_mdct_backward_c = Lean Float model
-(1e-4), Lean fold/DFT model = textbook MDCT of the theorem (1e-9).
+(1e-4), Lean fold/DFT model = textbook MDCT of the theorem (1e-9); the copy_channel_in calls of the real
+opus_multistream_encode_native = model `encoderCalls` (surround layouts + random encoder-valid layouts), exactly.
 Searched (S4, implementation only): TDAC on the real MDCT code; measured delay, SNR, level, per-band energy error,
-channel identity of real encoder+decoder round trips against bounds calibrated on the unchanged tree
-(tools/calibration_c04.json; `python3 tools/props/C04.py calibrate` rewrites it — never done by the check).
+channel identity of real encoder+decoder round trips.  Every round trip of the pool stream is compared, metric by
+metric, with what the unchanged tree produced for the very same configuration line (template x pool signal seed;
+tools/calibration_c04.json, 16 pool seeds; VERIF_SEED picks the seed per template); a second stream re-runs the delay
+grid with fresh signals against the property's own delay numbers.  `python3 tools/props/C04.py calibrate` rewrites
+the calibration file on the unchanged tree — never done by the check; a template without reference values is run as
+a fresh case and counted in the evidence, a missing file is an error of the check.
 """
 import json, math, os, re, subprocess, sys, time
 from concurrent.futures import ThreadPoolExecutor
@@ -18,7 +25,7 @@ if __name__ == '__main__':
 import common
 
 LEAN_MODULES = ['OpusProps.C04']
-GEN = ['Window']
+GEN = ['Window', 'LayoutTables']      # LayoutTables: C10's extractor (vorbis_mappings), used read-only
 SOURCES = ['src/opus_encoder.c', 'src/opus_decoder.c', 'src/opus_multistream_encoder.c', 'src/opus_multistream_decoder.c',
            'src/opus_projection_encoder.c', 'src/opus_projection_decoder.c', 'src/mapping_matrix.c',
            'celt/celt_encoder.c', 'celt/celt_decoder.c', 'celt/mdct.c', 'celt/mdct.h', 'celt/modes.c', 'celt/modes.h',
@@ -28,40 +35,51 @@ RULE = ('look-ahead: exhaustive over kind x Fs x application x channels (+ set-a
         'textbook definition); round trips: delay grid exhaustive over Fs x channels x application x 9 frame durations x '
         'forced mode, fidelity / channel-identity templates drawn once from the configuration space (Fs, channels, '
         'application, bandwidth, bitrate >= floor, frame duration, complexity, VBR/CVBR/CBR, sample format, signal family, '
-        'stereo relation), signals re-drawn from VERIF_SEED; a case is distinct by its template id')
+        'stereo relation); per template VERIF_SEED picks one of 16 calibrated pool signal seeds (every metric compared with '
+        'the unchanged tree\'s value for the same line) and, for the delay grid, one fresh signal seed (property\'s own delay '
+        'numbers only); encoder routing: surround layouts + random encoder-valid layouts with repeated / muted channels; '
+        'a case is distinct by its template id')
 REQUIRED_THEOREMS = ['OpusProps.C04.lookahead_eq', 'OpusProps.C04.encoder_exists_iff', 'OpusProps.C04.lookahead_any_history',
                      'OpusProps.C04.lookahead_fixed_after_first_frame', 'OpusProps.C04.lookahead_exact_ms',
                      'OpusProps.C04.lookahead_is_overlap_plus_buffer', 'OpusProps.C04.lookahead_table_matches_code',
                      'OpusProps.C04.init_fields_match_code', 'OpusProps.C04.window_power_complementary',
                      'OpusProps.C04.window_is_table', 'OpusProps.C04.window_monotone', 'OpusProps.C04.mdct_alias_form',
-                     'OpusProps.C04.mdct_tdac', 'OpusProps.C04.celt_window_tdac']
+                     'OpusProps.C04.mdct_tdac', 'OpusProps.C04.celt_window_tdac', 'OpusProps.C04.channel_identity',
+                     'OpusProps.C04.stream_side_identity', 'OpusProps.C04.surround_channel_identity']
 NOT_COVERED = [
-    'SNR of the decoded signal against the delayed input (numeric; only searched against calibrated per-template floors)',
-    'per-band energy error and overall level (gain) of the decoded signal (only searched against calibrated bounds)',
+    'SNR of the decoded signal against the delayed input (numeric; only searched: within 3 dB of the unchanged tree\'s value for the same line)',
+    'per-band energy error and overall level (gain) of the decoded signal (only searched against the calibrated reference values)',
     'the measured delay of the real encoder+decoder (cross-correlation peak) equals the reported look-ahead, incl. the '
     '+-0.1 ms allowance where the SILK resamplers are involved (only searched; the proof covers the reported value)',
-    'channel identity / sign / level through the real single-stream, multistream and projection codecs (only searched: '
-    'projection of every output channel on every input channel)',
+    'channel identity / sign / level through the real single-stream, multistream and projection codecs beyond the routing '
+    'layer (stereo coding inside a stream, the projection matrices applied to audio): only searched (projection of every '
+    'output channel on every input channel); the routing theorems cover which channel feeds / receives which stream side',
     'equality of the three sample formats\' fidelity (only searched; exact format equivalence is property C13)',
     'the equivalence of the code\'s fold -> N/4 FFT -> post-rotation structure with the textbook MDCT is tied numerically '
     '(Float model vs. definition, 1e-9; code vs. model, 1e-4), not proved; float rounding of the MDCT is not formalised',
     'quantisation (PVQ, SILK NSQ), band energy coding, resamplers, stereo prediction: not modelled at all',
 ]
-ASSUMPTIONS = ['bounds in tools/calibration_c04.json were measured on the unchanged tree over >= 16 signal seeds per template '
-               'with a margin of >= 3 dB (and >= 6 sigma); a signal outside the seeded generator families is not covered',
+ASSUMPTIONS = ['reference values in tools/calibration_c04.json were measured on the unchanged tree for 16 pool signal seeds per template; '
+               'a round trip may deviate from the reference of the same line by the margin of each metric (3 dB SNR, 1.5 dB gain / '
+               'level, 4 dB per-band energy, 0.01 ms or 0.3 sample delay offset, 0.1 cross-talk, 0.1 correlation peak) or by a '
+               'quarter of the template\'s seed-to-seed spread; a signal outside the seeded generator families is not covered',
+               'the VOIP application\'s adaptive high-pass shifts the measured delay of low-frequency noise by up to 0.07 ms on the '
+               'unchanged tree; the property\'s 0.1 ms allowance (stated for the speech layer\'s resamplers) is applied to it too',
                'the analysis window starts 200 ms into the stream (start-up transients of the codec are excluded)']
 LEVEL_TEXT = ('partial proof: kernel-checked theorems for the reported look-ahead (closed form for every creatable encoder and '
               'every set-application/encode/reset history, exact 2.5/6.5 ms, = CELT overlap + delay buffer, equal to the values '
               'regenerated from the code), for the power-complementarity of the regenerated CELT window (<= 2^-23) and for MDCT '
               'time-domain alias cancellation over the reals (alias form from the cosine orthogonality sums; overlap-add '
-              'returns the input exactly for a Princen-Bradley window and to 2^-23 relative with the real table); the look-ahead '
-              'model and a Float transcription of clt_mdct_forward_c/backward_c are tied to the code (exact / 1e-4); every '
+              'returns the input exactly for a Princen-Bradley window and to 2^-23 relative with the real table) and for channel '
+              'identity of the multistream routing (encoder channel selection and decoder routing are inverse to each other; '
+              'every channel of the surround layouts); the look-ahead model, the encoder routing model and a Float transcription of '
+              'clt_mdct_forward_c/backward_c are tied to the code (exact / exact / 1e-4); every '
               'quantitative fidelity clause (measured delay, SNR, per-band energy, level, channel identity through the real '
-              'codecs) is only searched on the implementation against bounds calibrated on the unchanged tree')
+              'codecs) is only searched on the implementation against reference values calibrated on the unchanged tree')
 LEVEL_NOTE = ('trusted: Lean kernel; extractor for window/encoder constants; harness metrics (cross-correlation, SNR, Welch band '
               'energies) and calibration file; SILK/CELT DSP interiors are not modelled — a change there is caught only by the '
               'witness search (testing)')
-TECHNIQUE = 'Lean 4 theorems (delay arithmetic, window table by kernel evaluation, TDAC over the reals) + differential tie + calibrated witness search'
+TECHNIQUE = 'Lean 4 theorems (delay arithmetic, window table by kernel evaluation, TDAC over the reals, routing identity) + differential tie + calibrated witness search'
 
 CAL_PATH = os.path.join(common.VERIF, 'tools', 'calibration_c04.json')
 APPS = [2048, 2049, 2051]
@@ -404,12 +422,39 @@ def ties(ctx):
     open(p2, 'w').write(txt)
     _state['tdac'] = [l for l in txt.split('\n') if l.startswith('T tdac')]
     out.append(lean_tie(ctx, 'mdct', p2, direct=not ctx.quick))
+    p3 = os.path.join(common.scratch(), 'c04_encroute.txt')
+    rc, txt = common.sh([h, 'encroute', str(ctx.seed), '200' if ctx.quick else '2000'])
+    open(p3, 'w').write(txt)
+    out.append(lean_tie(ctx, 'encoder-routing', p3))
     return out
 
 
 def classify(ctx, tie, mm):
     # A disagreement of the look-ahead table or of the MDCT with its model is not by itself a failing input of
     # "decode(encode(x)) = x delayed by the reported look-ahead": the search below measures that on the real codec.
+    if tie.name != 'encoder-routing':
+        return None
+    # Encoder-side routing: the model says which input channel feeds which stream side.  If the real encoder takes a
+    # stream side from a channel whose mapping byte designates a *different* side, the decoder (which routes by the
+    # mapping byte, property C10) returns that audio on another channel: a channel swap, on this very layout.
+    try:
+        f = mm['input'].split()
+        mapping = [int(f[5][1 + 2 * i:3 + 2 * i], 16) for i in range(int(f[2]))]
+        calls = lambda txt: [int(tok[tok.index('c') + 1:]) for tok in txt.split()]
+        exp, obs = calls(mm['model']), calls(mm['impl'])
+        if len(exp) != len(obs):
+            return None
+        for i, (a, b) in enumerate(zip(exp, obs)):
+            if a != b and not (0 <= b < len(mapping) and 0 <= a < len(mapping) and mapping[a] == mapping[b]):
+                return {'suite': 'encoder-routing', 'input': mm['input'],
+                        'expected': 'copy-in call %d of the stream loop reads input channel %d (mapping byte %s): %s' % (
+                            i, a, mapping[a] if 0 <= a < len(mapping) else '?', mm['model']),
+                        'observed': 'it reads channel %d (mapping byte %s): %s' % (b, mapping[b] if 0 <= b < len(mapping) else '?', mm['impl']),
+                        'why': 'the multistream encoder feeds a stream side from a channel that the decoder does not route that '
+                               'side back to: channels are swapped for this layout (replay: <harness c04_roundtrip> encroute %d %s)'
+                               % (ctx.seed, '200' if ctx.quick else '2000')}
+    except (KeyError, ValueError, IndexError):
+        pass
     return None
 
 
